@@ -107,7 +107,7 @@ def run(seed=0, tier="quick", aimed=None):
     r0 = impl.rng(seed, "c14cfg")
     for dim in (2, 3):
         els = group(dim)
-        filts = [None] if dim == 2 else [None, (1, "multiplicative"), (2, "convolution")]
+        filts = [None] if dim == 2 else [None, (1, "multiplicative"), (2, "convolution"), (3, "multiplicative")]
         solvers = ["-"] if dim == 2 else ["greens_function_convolution", "fast_diagonalisation"]
         cfgs = [dict(forcing=f, fs=fs, filt=fl, solver=sv, w=w) for f, fs, fl, sv, w in
                 itertools.product([False, True], [False, True], filts, solvers, [0, 1, 3])]
@@ -115,6 +115,8 @@ def run(seed=0, tier="quick", aimed=None):
             cfgs = [cfgs[i] for i in r0.permutation(len(cfgs))[: (6 if dim == 2 else 5)]]
             if dim == 3:
                 cfgs.append(dict(forcing=True, fs=True, filt=None, solver="greens_function_convolution", w=0))
+                # an odd filter order (the number of 1D sweeps, 3 * order, is odd): always present
+                cfgs.append(dict(forcing=False, fs=True, filt=([1, 3][seed % 2], "multiplicative"), solver="greens_function_convolution", w=0))
         for ci, cfg in enumerate(cfgs):
             r = impl.rng(seed, "c14", dim, ci)
             if tier == "quick":
